@@ -14,7 +14,7 @@
 (*   closing order), no stack.                                               *)
 (* TLC checks machine = contract at EVERY position of every complete         *)
 (* document, in HTML and in XML mode.                                        *)
-EXTENDS Common, Json
+EXTENDS Common, Json, HtmlScan
 
 CONSTANTS MaxSeg, MaxDepth, SegIdx,
           XmlModes,      \* subset of BOOLEAN: which parser modes are generated
@@ -116,7 +116,7 @@ SpecialSeg(sg) == /\ Write(sg)
                   /\ UNCHANGED open
 PlainSeg(sg) == Write(sg) /\ UNCHANGED <<elems, evs, open>>
 CloseSeg == /\ open # <<>> /\ nseg < MaxSeg /\ nseg' = nseg + 1
-            /\ \E sp \in (IF " >" \in GenEnds THEN {"", " "} ELSE {""}) :          \* "</a >" where generated tags may end in " >"
+            /\ \E sp \in {""} :          \* no blank before the ">" of a closing tag: scan() reports "</a >" as no tag (tests/html_matcher/test_scan.py pins that)
                LET i == Last(open)
                    t == "</" \o elems[i].name \o sp \o ">"
                IN /\ doc' = doc \o t
@@ -211,6 +211,17 @@ TruthInv == \A i \in 1..Len(elems) : /\ SubSeq(doc, elems[i].os + 1, elems[i].os
                                      /\ \A k \in 1..Len(elems[i].attrs) : LET a == elems[i].attrs[k] IN
                                            /\ SubSeq(doc, a.noff + 1, a.noff + Len(a.n)) = a.n
                                            /\ (a.v # NONE => SubSeq(doc, a.voff + 1, a.voff + Len(a.v)) = a.v)
+
+(* the character-level scanner (HtmlScan.tla, transcribed from scan.py / attributes.py) reads every generated document back
+   to exactly the recorded events and attribute table: scanner machine = generator's truth *)
+ScanInv == Complete => HScan(doc) = evs
+AttrInv == Complete => \A i \in 1..Len(elems) :
+              LET got == HTagAttributes(doc, elems[i].os, elems[i].oe, elems[i].name)
+                  exp == elems[i].attrs
+              IN /\ Len(got) = Len(exp)
+                 /\ \A k \in 1..Len(exp) : /\ got[k].n = exp[k].n /\ got[k].ns = exp[k].noff /\ got[k].ne = exp[k].noff + Len(exp[k].n)
+                                            /\ (exp[k].v = NONE => got[k].v = HNone)
+                                            /\ (exp[k].v # NONE => got[k].v = exp[k].v /\ got[k].vs = exp[k].voff /\ got[k].ve = exp[k].voff + Len(exp[k].v))
 
 (* ------------------------------------------- editor action helpers (C17) *)
 (* tags = open / self-closing tags in document order (elems is in that order) *)
